@@ -263,7 +263,7 @@ TRUSTED_BASE = [
     "harness correspondence drivers: model evaluated by vm_compute vs /repo implementation on the same cases",
     "control flow of the Python code outside the translated set is modelled by hand, tied by correspondence only",
     "harness/regen.py gen_structure + pinned table Proofs/StructureP.v (structure premise Cxx_structure)",
-    "for C04/C05/C08/C09/C10/C11/C12/C17/C19/C20: harness/pytrans.py (Python source -> MiniPy terms) and Py/Interp.v as a description of CPython on the fragment, validated by the PySem stream on sampled arguments",
+    "for C03/C04/C05/C08/C09/C10/C11/C12/C17/C19/C20: harness/pytrans.py (Python source -> MiniPy terms) and Py/Interp.v as a description of CPython on the fragment, validated by the PySem stream on sampled arguments",
     "external primitives (hashlib, hmac, unicodedata, python-ecdsa, json, os.urandom) are parameters of the model",
 ]
 
